@@ -34,6 +34,32 @@ struct Case {
     param: usize,
     /// decode this frame (larger window) completely on the same decoder first: the bound must hold on reused decoders too
     reuse_after: Option<Vec<u8>>,
+    /// window limit configured on the decoder before the frame (None: the default of 128 MiB)
+    limit: Option<usize>,
+}
+
+/// hand-built frame: window descriptor byte, optional Frame_Content_Size claim (two byte field, not single segment), blocks
+fn raw_frame(window_descriptor: u8, fcs_claim: Option<u16>, blocks: &[(u8, u32, Vec<u8>)]) -> Vec<u8> {
+    let mut f = vec![0x28, 0xB5, 0x2F, 0xFD];
+    match fcs_claim {
+        // FCS flag 1: two bytes holding value - 256
+        Some(v) => {
+            f.push(0x40);
+            f.push(window_descriptor);
+            f.extend_from_slice(&v.to_le_bytes());
+        }
+        None => {
+            f.push(0x00);
+            f.push(window_descriptor);
+        }
+    }
+    for (i, (btype, size, body)) in blocks.iter().enumerate() {
+        let last = (i + 1 == blocks.len()) as u32;
+        let h = last | (u32::from(*btype) << 1) | (size << 3);
+        f.extend_from_slice(&h.to_le_bytes()[..3]);
+        f.extend_from_slice(body);
+    }
+    f
 }
 
 const DRIVERS: [&str; 5] = ["UptoBlocks(1)", "UptoBytes(n)", "UptoBlocks(k)", "StreamingDecoder::read(n)", "decode_all"];
@@ -60,11 +86,19 @@ fn build_cases(args: &Args) -> Vec<Case> {
         frames_.push((format!("bomb: {n} sequences ll=0 ml={ml} repeat offset, RLE tables, window 1 KiB"), bomb(n, ml), true, false));
     }
     for (name, plan) in synth::hostile_matrix() {
-        let relevant = name.starts_with("bomb_") || name.starts_with("block_regen") || name.starts_with("raw_literals") || name.starts_with("rle_literals") || name.starts_with("huffman_literals") || name.starts_with("ll_code_35");
+        let relevant = name.starts_with("bomb_") || name.starts_with("block_regen") || name.starts_with("raw_literals") || name.starts_with("rle_literals") || name.starts_with("huffman_literals") || name.starts_with("ll_code_35") || name == "rle_block_128k_plus_1" || name == "rle_block_2mib" || name == "raw_block_128k_plus_1";
         if relevant {
             let s = synth::synthesise(&plan);
             frames_.push((format!("hostile plan: {name}"), s.bytes, true, false));
         }
+    }
+    // RLE and raw blocks whose header announces more than 128 KiB (an RLE block costs four bytes whatever it announces)
+    for (wd, wname) in [(0x00u8, "1 KiB"), (0x68, "8 MiB")] {
+        for size in [131_073u32, 200_000, 1 << 20, (1 << 21) - 1] {
+            frames_.push((format!("oversized block: RLE block announcing {size} bytes, window {wname}"), raw_frame(wd, None, &[(0, 4, b"abcd".to_vec()), (1, size, vec![0x77])]), true, false));
+            frames_.push((format!("oversized block: 20 RLE blocks announcing {size} bytes each, window {wname}"), raw_frame(wd, None, &(0..20).map(|_| (1u8, size, vec![0x77u8])).collect::<Vec<_>>()), true, false));
+        }
+        frames_.push((format!("oversized block: raw block of 131073 bytes, window {wname}"), raw_frame(wd, None, &[(0, 131_073, vec![0x55; 131_073])]), true, false));
     }
     // benign: reference compressor at every window size with content larger than the window, several blocks
     let mut r = Rng::for_case(args.seed, 5, 0);
@@ -113,7 +147,7 @@ fn build_cases(args: &Args) -> Vec<Case> {
                 3 => *r.pick(&[1usize, 100, 4096, 1 << 20]),
                 _ => 0,
             };
-            cases.push(Case { name: name.clone(), frame: frame.clone(), oversized_block: oversized, valid, driver: d, param, reuse_after: None });
+            cases.push(Case { name: name.clone(), frame: frame.clone(), oversized_block: oversized, valid, driver: d, param, reuse_after: None, limit: None });
         }
         // the same frame on a decoder that has seen a frame with a much larger window before
         let window = zspec::frame::parse_frame_header(&frame).map(|h| h.window_size).unwrap_or(u64::MAX);
@@ -127,7 +161,33 @@ fn build_cases(args: &Args) -> Vec<Case> {
                 3 => 4096,
                 _ => 0,
             };
-            cases.push(Case { name: format!("{name} [on a decoder reused after a frame with a 4 MiB window]"), frame: frame.clone(), oversized_block: oversized, valid, driver: d, param, reuse_after: Some(big_first.clone()) });
+            cases.push(Case { name: format!("{name} [on a decoder reused after a frame with a 4 MiB window]"), frame: frame.clone(), oversized_block: oversized, valid, driver: d, param, reuse_after: Some(big_first.clone()), limit: None });
+        }
+    }
+    // the configured window limit: frames declaring a window far above it - whatever content size they claim - and then
+    // delivering much more than the limit (96 RLE blocks = 12 MiB in 390 bytes); and legal frames at the limit
+    let rle_blocks: Vec<(u8, u32, Vec<u8>)> = (0..96).map(|_| (1u8, BLOCK as u32, vec![0x33u8])).collect();
+    for (wd, wname) in [(0x68u8, "8 MiB"), (0x80, "64 MiB"), (0x98, "512 MiB")] {
+        for claim in [None, Some(0u16), Some(1000), Some(65535)] {
+            let frame = raw_frame(wd, claim, &rle_blocks);
+            for limit in [1usize << 20, 4 << 20] {
+                for d in 0..5 {
+                    let param = [0usize, 1000, 2, 4096, 0][d];
+                    let what = match claim {
+                        Some(c) => format!("claiming {} bytes of content", c as usize + 256),
+                        None => "without a content size".to_string(),
+                    };
+                    cases.push(Case { name: format!("window above the limit: window {wname} {what}, 12 MiB of RLE blocks, limit {} MiB", limit >> 20), frame: frame.clone(), oversized_block: false, valid: false, driver: d, param, reuse_after: None, limit: Some(limit) });
+                }
+            }
+        }
+    }
+    for (k, limit) in [1usize << 20, 2 << 20].into_iter().enumerate() {
+        // window == limit: accepted, and the bound is the limit
+        let frame = raw_frame(if k == 0 { 0x50 } else { 0x58 }, None, &rle_blocks[..64]);
+        for d in 0..5 {
+            let param = [0usize, 1000, 2, 4096, 0][d];
+            cases.push(Case { name: format!("window at the limit: window = limit = {} MiB, 8 MiB of RLE blocks", limit >> 20), frame: frame.clone(), oversized_block: false, valid: true, driver: d, param, reuse_after: None, limit: Some(limit) });
         }
     }
     cases
@@ -143,7 +203,12 @@ fn run_case(c: &Case) -> Value {
             v_push(&mut violations, $k, $m)
         };
     }
-    let window = zspec::frame::parse_frame_header(&c.frame).map(|h| h.window_size as usize).unwrap_or(0);
+    let declared_window = zspec::frame::parse_frame_header(&c.frame).map(|h| h.window_size as usize).unwrap_or(0);
+    // "together with the window limit": whatever the frame declares, the decoder may not hold more than the limit allows
+    let window = match c.limit {
+        Some(l) => declared_window.min(l),
+        None => declared_window,
+    };
     let mut max_held = 0usize;
     let mut max_delta = 0usize;
     let mut calls = 0u64;
@@ -156,6 +221,9 @@ fn run_case(c: &Case) -> Value {
     let reused = c.reuse_after.is_some();
     let res = catch(|| -> Result<(), String> {
         let mut d = FrameDecoder::new();
+        if let Some(l) = c.limit {
+            d.set_max_window_size(l as u64);
+        }
         if let Some(first) = &c.reuse_after {
             let mut src = &first[..];
             d.reset(&mut src).map_err(|e| format!("HARNESS first frame: {e}"))?;
@@ -253,6 +321,9 @@ fn run_case(c: &Case) -> Value {
             Some(e)
         }
     };
+    if c.limit.map(|l| declared_window > l).unwrap_or(false) && outcome == "finished" {
+        v!("window_above_limit_accepted", format!("a frame declaring a {declared_window} byte window was decoded to the end with the limit set to {}", c.limit.unwrap_or(0)));
+    }
     if c.oversized_block && outcome == "finished" {
         v!("oversized_block_accepted", "a frame containing a block that regenerates more than 128 KiB was decoded without an error".to_string());
     }
